@@ -24,8 +24,8 @@ def fragStructHA (n : Text.WNet) (T : Text.WDef) (kT : Nat) (ks : List Nat) : Bo
 
 theorem ports_dir_of_tokOKA (m : WModPA) (h : tokOKA m.toA = true) : ∀ p ∈ m.base.ports, p.dir ≠ .undef := by
   intro p hp
-  simp only [tokOKA, modOK, Bool.and_eq_true, List.all_eq_true] at h
-  have := h.1.2 (SItem.port p) (by
+  simp only [tokOKA, modOKP, modOK, Bool.and_eq_true, List.all_eq_true] at h
+  have := h.1.1.2 (SItem.port p) (by
     simp only [WModPA.toA, WModP.toI, WModA.sitems, List.mem_append, List.mem_map]
     exact Or.inl (Or.inl (Or.inl ⟨p, hp, rfl⟩)))
   simp only [SItem.ok, portOK, Bool.and_eq_true, bne_iff_ne, ne_eq] at this
@@ -49,8 +49,9 @@ theorem anyDirOKA_of (P : WAnyPA) (h : anyOKA P.toAny = true) : anyDirOKA P := b
 theorem c04_text_hierA (n : Text.WNet) (T : Text.WDef) (kT : Nat) (ks : List Nat) (hT : n.defs.getD kT default = T)
     (h : fragStructHA n T kT ks = true) :
     ∃ text fin s, Text.composeV n optsBB = .ok (text, fin) ∧ Parse.readV text = .ok s ∧ s.top = some T.name ∧
-      (∃ D ∈ s.defs, D.name = T.name ∧ viewD D = viewTA n T ∧ D.lib = some "work") ∧
-      (∀ r ∈ laterA n ks, isPrim r = false → ∃ D ∈ s.defs, D.name = r.name ∧ viewD D = viewTA n r ∧ D.lib = some "work") ∧
+      (∃ D ∈ s.defs, D.name = T.name ∧ viewD D = viewTA n T ∧ D.lib = some "work" ∧ D.params = paramsOf T) ∧
+      (∀ r ∈ laterA n ks, isPrim r = false →
+        ∃ D ∈ s.defs, D.name = r.name ∧ viewD D = viewTA n r ∧ D.lib = some "work" ∧ D.params = paramsOf r) ∧
       (∀ r ∈ laterA n ks, isPrim r = true → ∃ L ∈ s.defs, L.name = r.name ∧ L.lib = some "hdi_primitives" ∧
         ifaceD L = ifaceT r) := by
   unfold fragStructHA at h
@@ -96,14 +97,14 @@ def exHMA : WModPA :=
     ⟨"a", "wire", some (1, 0), []⟩],
    [⟨"u0", "sub", [], [], [("p", .atom (.part "a" 1 0)), ("q", .atom (.id "w"))]⟩,
     ⟨"u1", "LUT1", [], [], [("I0", .atom (.id "w")), ("O", .atom (.id "y"))]⟩]⟩,
-   [(.part "v" 1 0, .part "a" 1 0), (.id "z", .id "w")]⟩
+   [(.part "v" 1 0, .part "a" 1 0), (.id "z", .id "w")], [("WIDTH", "2")]⟩
 
 def exHSubA : WModPA :=
   ⟨⟨"sub", [("keep", none)],
    [⟨"p", .inp, some (1, 0), []⟩, ⟨"q", .out, none, [("mark", none)]⟩],
    [⟨"r", "wire", none, []⟩, ⟨"q", "wire", none, []⟩, ⟨"p", "wire", some (1, 0), []⟩],
    [⟨"g0", "LUT1", [], [], [("I0", .atom (.bit "p" 0)), ("O", .atom (.id "r"))]⟩]⟩,
-   [(.id "q", .id "r")]⟩
+   [(.id "q", .id "r")], [("DEPTH", "4'h3"), ("MODE", "\"fast\"")]⟩
 
 def exHPsA : List WAnyPA := [.work exHSubA, .leaf ⟨"LUT1", [⟨"I0", .inp, none, []⟩, ⟨"O", .out, none, []⟩]⟩]
 
@@ -111,10 +112,14 @@ theorem exNetHA_ast : astOfA exNetHA exTopHA = some exHMA := by rfl
 theorem exNetHA_Ps : (laterA exNetHA [1, 2, 3, 4]).mapM (astAnyPA exNetHA) = some exHPsA := by rfl
 
 theorem modOKA_of (m : WModA) (h : modOK m.base.attrs m.base.name (m.base.ports.map (·.name)) m.sitems = true)
-    (hc : cleanToks (tokensOfA m) = true) : tokOKA m = true := by unfold tokOKA; rw [h, hc]; rfl
+    (hp : mparamsOK m.params = true) (hc : cleanToks (tokensOfA m) = true) : tokOKA m = true := by
+  unfold tokOKA modOKP; rw [h, hp, hc]; rfl
 
 theorem exHMA_tokOK : tokOKA exHMA.toA = true := by
-  apply modOKA_of _ _ (by decide +kernel)
+  apply modOKA_of _ _ (by
+    simp only [mparamsOK, exHMA, WModPA.toA, List.all_cons, List.all_nil, Bool.and_true, Bool.and_eq_true, bne_iff_ne, ne_eq,
+      decide_eq_true_eq]
+    exact ⟨⟨plainK_sound _ (by decide +kernel), by decide⟩, by decide⟩) (by decide +kernel)
   have N : ∀ nm, nameK nm = true → nameTokB (nameT nm) nm = true := nameK_sound
   have P : ∀ t, plainK t = true → nameTokB t t = true := plainK_sound
   have I : ∀ i, intK i = true → intTokB i = true := intK_sound
@@ -130,7 +135,11 @@ theorem exHMA_tokOK : tokOKA exHMA.toA = true := by
     | simp
 
 theorem exHSubA_tokOK : tokOKA exHSubA.toA = true := by
-  apply modOKA_of _ _ (by decide +kernel)
+  apply modOKA_of _ _ (by
+    simp only [mparamsOK, exHSubA, WModPA.toA, List.all_cons, List.all_nil, Bool.and_true, Bool.and_eq_true, bne_iff_ne, ne_eq,
+      decide_eq_true_eq]
+    exact ⟨⟨⟨plainK_sound _ (by decide +kernel), by decide⟩, plainK_sound _ (by decide +kernel), by decide⟩, by decide⟩)
+    (by decide +kernel)
   have N : ∀ nm, nameK nm = true → nameTokB (nameT nm) nm = true := nameK_sound
   have P : ∀ t, plainK t = true → nameTokB t t = true := plainK_sound
   have I : ∀ i, intK i = true → intTokB i = true := intK_sound
@@ -166,9 +175,10 @@ theorem exNetHA_struct : fragStructHA exNetHA exTopHA 0 [1, 2, 3, 4] = true := b
 /-- the end-to-end statement on the example with assigns, unconditionally -/
 theorem exNetHA_roundtrip :
     ∃ text fin s, Text.composeV exNetHA optsBB = .ok (text, fin) ∧ Parse.readV text = .ok s ∧ s.top = some exTopHA.name ∧
-      (∃ D ∈ s.defs, D.name = exTopHA.name ∧ viewD D = viewTA exNetHA exTopHA ∧ D.lib = some "work") ∧
+      (∃ D ∈ s.defs, D.name = exTopHA.name ∧ viewD D = viewTA exNetHA exTopHA ∧ D.lib = some "work" ∧
+        D.params = paramsOf exTopHA) ∧
       (∀ r ∈ laterA exNetHA [1, 2, 3, 4], isPrim r = false →
-        ∃ D ∈ s.defs, D.name = r.name ∧ viewD D = viewTA exNetHA r ∧ D.lib = some "work") ∧
+        ∃ D ∈ s.defs, D.name = r.name ∧ viewD D = viewTA exNetHA r ∧ D.lib = some "work" ∧ D.params = paramsOf r) ∧
       (∀ r ∈ laterA exNetHA [1, 2, 3, 4], isPrim r = true → ∃ L ∈ s.defs, L.name = r.name ∧ L.lib = some "hdi_primitives" ∧
         ifaceD L = ifaceT r) :=
   c04_text_hierA exNetHA exTopHA 0 [1, 2, 3, 4] rfl exNetHA_struct
